@@ -71,3 +71,18 @@ Theorem C20_equal_specializations_are_the_same_arc : forall (T : Type) (K : Ops 
   = bernstein K v2 (osub K (o1 K) (oadd K (omul K (osub K (o1 K) s) a2) (omul K s b2))) (oadd K (omul K (osub K (o1 K) s) a2) (omul K s b2)).
 Proof. exact @equal_specializations_coincide. Qed.
 Print Assumptions C20_equal_specializations_are_the_same_arc.
+
+(* ---- the two clauses of the statement that the code does NOT satisfy, as theorems about the regenerated check_lines
+   (known findings F13 and F10; the same inputs fail on the implementation) ---- *)
+(* F13: two segments of one line touching in a single point are reported as a FLAGGED zero-width shared segment *)
+Theorem C20_touching_collinear_segments_refuted :
+  py_check_lines (lin_rec 0 0 1 0 0 VNone) (lin_rec 1 0 2 0 0 VNone)
+  = VTup [VB true; VTup [VTup [VTup [VQ 1; VQ 1]; VTup [VQ 0; VQ 0]]; VB true]].
+Proof. vm_compute. reflexivity. Qed.
+Print Assumptions C20_touching_collinear_segments_refuted.
+(* F10: for segments of opposite direction the two end points come in the SECOND curve's order: the first-curve parameter decreases *)
+Theorem C20_order_along_the_first_curve_refuted : exists s0 s1 t0 t1,
+  py_check_lines (lin_rec 0 0 2 0 0 VNone) (lin_rec 3 0 1 0 0 VNone)
+  = VTup [VB true; VTup [VTup [VTup [VQ s0; VQ s1]; VTup [VQ t0; VQ t1]]; VB true]] /\ s1 < s0 /\ t0 < t1.
+Proof. do 4 eexists. split; [vm_compute; reflexivity|]. split; reflexivity. Qed.
+Print Assumptions C20_order_along_the_first_curve_refuted.
